@@ -153,7 +153,7 @@ func DecodeSenc(hdr BoxHeader, startPos uint64, r io.Reader) (Box, error) {
 
 // DecodeSencSR - box-specific decode
 func DecodeSencSR(hdr BoxHeader, startPos uint64, sr bits.SliceReader) (Box, error) {
-	if hdr.Size < 16 {
+	if hdr.payloadLen() < 8 {
 		return nil, fmt.Errorf("box size %d less than min size 16", hdr.Size)
 	}
 
@@ -165,7 +165,7 @@ func DecodeSencSR(hdr BoxHeader, startPos uint64, sr bits.SliceReader) (Box, err
 	flags := versionAndFlags & flagsMask
 	sampleCount := sr.ReadUint32()
 
-	if flags&UseSubSampleEncryption != 0 && ((hdr.Size - 16) < 2*uint64(sampleCount)) {
+	if flags&UseSubSampleEncryption != 0 && (uint64(hdr.payloadLen()-8) < 2*uint64(sampleCount)) {
 		return nil, fmt.Errorf("box size %d too small for %d samples and subSampleEncryption",
 			hdr.Size, sampleCount)
 	}
